@@ -31,6 +31,17 @@ open Gwb
 #print axioms C08_polygon_translation_full_false
 #print axioms C08_bezier_closest_translation_full_false
 #print axioms C08_footprint_at_zero_missed
+#print axioms C08_canonical_unique
+#print axioms C08_bbox_tries_all_aliases
+#print axioms C08_bbox_lon_offset_general
+#print axioms C08_plume_covers_lon_offset
+#print axioms C08_plume_covers_lon_offset_of_centre
+#print axioms C08_ridge_lon_offset
+#print axioms C08_ridge_reach_of_range
+#print axioms C08_ridge_lon_offset_same_sign
+#print axioms C08_bbox_lon_offset_general_old_false
+#print axioms C08_ridge_lon_offset_inrange_full_false
+#print axioms C08_ridge_lon_offset_full_false
 #check @C08_longitude_alias_same_point
 #check @C08_longitude_plus_minus_two_pi
 #check @C08_longitude_alias_same_answer
@@ -62,3 +73,14 @@ open Gwb
 #check @C08_polygon_translation_full_false
 #check @C08_bezier_closest_translation_full_false
 #check @C08_footprint_at_zero_missed
+#check @C08_canonical_unique
+#check @C08_bbox_tries_all_aliases
+#check @C08_bbox_lon_offset_general
+#check @C08_plume_covers_lon_offset
+#check @C08_plume_covers_lon_offset_of_centre
+#check @C08_ridge_lon_offset
+#check @C08_ridge_reach_of_range
+#check @C08_ridge_lon_offset_same_sign
+#check @C08_bbox_lon_offset_general_old_false
+#check @C08_ridge_lon_offset_inrange_full_false
+#check @C08_ridge_lon_offset_full_false
